@@ -349,7 +349,7 @@ func genC18(t *rapid.T) ReqCase {
 		o := GenOpts{ValueMode: -1, Biases: []string{target}, MinBiases: 2, MaxBiases: 3, Probes: true}
 		return mkReqCase(genRequest(t, o))
 	}
-	return mkReqCase(stepRequest(t, GenOpts{ValueMode: -1}, target, 2))
+	return mkReqCase(stepRequest(t, GenOpts{ValueMode: -1, BigTiers: true}, target, 2))
 }
 
 // ---- component level: reference-criterion providers
